@@ -140,6 +140,7 @@ func OptPool() []*OptDecl {
 		{Names: []string{"f", "force"}, Flag: true},
 		{Names: []string{"a-rather-long_option-name-with-2-digits-and_under_scores", "L"}},
 		{Names: []string{"m", "many", "M", "many-names", "mm"}, Flag: true},
+		{Names: []string{"T", "Tag-Name"}}, // names are case-sensitive, long ones too
 	}
 }
 
@@ -272,7 +273,7 @@ var Vals = []string{"v1", "v2", "x", "7", "a=b", "v-1", "a b", "é", "=", "x--",
 	"a-value-of-about-two-hundred-bytes-" + strings.Repeat("0123456789", 17),
 	// values spelled like the letters of help / version / declared options: attached to a short option they must stay values
 	"hello", "h", "help", "Version", "abo", "fi"}
-var Poss = []string{"p1", "p2", "q", "3", "-", "p1", "x=y", "é", "+1", "%s", "tab\there", "語", "—", "\"q\"", "help", "h", "",
+var Poss = []string{"p1", "p2", "q", "3", "-", "p1", "x=y", "é", "+1", "%s", "tab\there", "語", "—", "\"q\"", "help", "h", "", "true", "false",
 	"a-positional-that-is-longer-than-sixty-four-bytes-0123456789-0123456789-0123456789-0123456789"}
 
 func derive(r *rand.Rand, p *Prog, n *Node, out *[]sym, budget *int, maxRep int) {
